@@ -45,6 +45,29 @@ def gen_inputs(ctx):
     for m, p in pairs:
         out.append(("Seed", {"m": T(m), "p": T(p)},
                     ("seed", m.isascii(), p.isascii(), R.nfkd(m) != m, R.nfkd(p) != p, p == "", len(R.utf8(m)) > 128)))
+    # valid BIP39 sentences that HAPPEN to be valid seed phrases of a neighbouring scheme as well (Electrum: the first hex
+    # digits of HMAC-SHA512("Seed version", phrase) are 01 / 100 / 101): still plain BIP39 here.  Searched (1 in 256 / 4096).
+    try:
+        from btc_hd_wallet.bip39_wordlist import word_list as _wl
+        words = [str(w_) for w_ in _wl]
+    except Exception:
+        words = []
+    found_el = {}
+    tries = 0
+    while words and len(found_el) < 3 and tries < (30000 if q else 120000):
+        tries += 1
+        ent = bytes(rng.randrange(256) for _ in range(16))
+        bits = bin(int.from_bytes(ent, "big"))[2:].zfill(128) + bin(R.sha256(ent)[0])[2:].zfill(8)[:4]
+        phrase = " ".join(words[int(bits[j:j + 11], 2)] for j in range(0, 132, 11))
+        hx = R.hmac512(b"Seed version", phrase.encode("utf-8")).hex()
+        for pre in ("100", "101", "01"):
+            if hx.startswith(pre) and pre not in found_el:
+                found_el[pre] = phrase
+    ctx.notes["bip39_sentences_that_are_electrum_seeds_too"] = {k: True for k in found_el}
+    for pre, phrase in sorted(found_el.items()):
+        for pw in ("", "TREZOR"):
+            out.append(("Seed", {"m": T(phrase), "p": T(pw)}, ("seed-also-electrum", pre)))
+        out.append(("Construct", {"route": "mnemonic", "m": T(phrase), "p": T(""), "net": "main"}, ("mnemonic-also-electrum", pre)))
     # pairs that differ only in WHERE the boundary between mnemonic, the literal "mnemonic" and the passphrase lies
     # (their concatenations coincide), each judged right after the other one was asked in the same process
     Mn = "legal winner thank year wave sausage worth useful legal winner thank yellow"
